@@ -118,6 +118,7 @@ def build(case):
         'nan', 'attrs', 'alf_store_samples', 'dat_path_str', 'alf_skew', 'fortran')})
     spec.notes['fortran'] = bool(o['fortran'])
     spec.notes['raw_symlink'] = bool(o['raw_symlink'])
+    spec.notes['raw_same_name'] = case['seed'][2] % 3 == 1         # parts named run<k>/continuous.<ext>
     spec.notes['ks2_templates_ind'] = bool(o['ks2_file'])
     spec.notes['npy_symlink'] = bool(o['npy_symlink'])
     spec.alf_store_samples = o['alf_store_samples']
@@ -160,7 +161,9 @@ def build(case):
         if spec.alf_times_custom is not None and ns % 2:
             # only the stored seconds are out of order, the stored samples stay sorted
             t = spec.alf_times_custom.copy()
-            t[pos] = t[pos + 1] + 0.5
+            # (by half a second, or by a fifth of a sample: an inversion of any size is an inversion)
+            t[pos] = t[pos + 1] + (0.5 if ns % 4 == 3 else 0.2 / spec.sample_rate)
+            assert t[pos] > t[pos + 1]
             spec.alf_times_custom = t
         else:
             spec.spike_samples = s
@@ -255,6 +258,14 @@ def run_case(case, ctx):
         m = r.value
         try:
             _compare(m, spec, o, case, ctx, feats)
+            # the cluster assignment is the caller's working copy (manual clustering updates it in place): writing to it
+            # must leave the other loaded arrays equal to the files
+            sc_ = m.spike_clusters
+            if isinstance(sc_, np.ndarray) and sc_.flags.writeable and sc_.size:
+                ctx.cell('clusters_written_by_caller')
+                sc_[::2] = sc_.max() + 5
+                _cmp(ctx, case, dict(feats, after_cluster_update=True), 'spike_templates (after the caller updated spike_clusters in place)',
+                     m.spike_templates, spec.spike_templates.astype(spec.dtype_ids))
         finally:
             call(m.close)
         if case['seed'][2] % 3 == 0:
